@@ -1,4 +1,4 @@
-import SgVerif.C25.Lemmas
+import SgVerif.C25.FloydPred
 /-
 C25 — Shortest-path zones compute minimal routes.  Property theorems (nothing else in this file).
 Every theorem is for every number of nodes, every set of declared routes (any link lists, symmetric or one-way).
@@ -78,11 +78,6 @@ theorem floyd_stores_declared (s s' : FloydSt) (src dst : Nat) (links : List Lk)
         have : ¬ (src = dst ∧ dst = src) := fun e => hne e.1
         simp [Tbl.set, this]
 
-/-- chain of stored one-hop routes -/
-def HopChain (link : Tbl (List Lk)) : Nat → List (Nat × Nat × List Lk) → Nat → Prop
-  | a, [], b => a = b
-  | a, (p, q, l) :: hs, b => p = a ∧ link p q = some l ∧ HopChain link q hs b
-
 /-- **Floyd: whatever get_local_route returns is a chain of declared one-hop routes from src to dst** (the walk of
 the predecessor table pushes `link_table_[pred][cur]` and stops at `src`) — every table, every fuel. -/
 theorem floyd_path_valid (s : FloydSt) (src dst : Nat) : ∀ (f cur : Nat) (acc hops : List (Nat × Nat × List Lk)),
@@ -105,6 +100,88 @@ theorem floyd_path_valid (s : FloydSt) (src dst : Nat) : ∀ (f cur : Nat) (acc 
           subst h; rw [hps] at hc'; exact hc'
         · simp only [hps, ne_eq, not_false_eq_true, if_true] at h
           exact ih p _ hops hc' h
+
+/-- **Floyd: the predecessor table after do_seal** — for every n and every table `s` built by add_route
+(`WellDecl n s`: cost = link count and predecessor = source of every declared one-hop route, netpoint ids < n, every
+declared route has at least one link — `add_route_check_params` refuses an empty link list; `wellDecl_init`,
+`wellDecl_add`, `wellDecl_routes`, `wellDecl_loopback` show that add_route and the loopback step establish it):
+for every pair with a finite cost, the predecessor `p` of `b` on the way from `a` is a node < n, the one-hop route
+p → b is declared, and the cost is exactly the link count of that route (p = a) or the cost of (a, p) plus that link
+count; a pair with cost ULONG_MAX has predecessor -1; the link table is the declared one. -/
+theorem floyd_pred_invariant (n : Nat) (s : FloydSt) (h : WellDecl n s) :
+    (floydSeal n s).link = (floydLoopback n s).link ∧
+    (∀ a b, a < n → b < n → ∀ c, (floydSeal n s).cost a b = some c →
+      ∃ p l, (floydSeal n s).pred a b = some p ∧ p < n ∧ (floydSeal n s).link p b = some l ∧
+        ((p = a ∧ l.length = c) ∨ (p ≠ a ∧ ∃ cp, (floydSeal n s).cost a p = some cp ∧ cp + l.length = c))) ∧
+    (∀ a b, (floydSeal n s).cost a b = none → (floydSeal n s).pred a b = none) := by
+  have h0 := wellDecl_loopback n s h
+  refine ⟨floydLoops_link n _, ?_, noneInv_loops n _ h0.noneInv⟩
+  intro a b ha hb c hc
+  obtain ⟨p, l, hp, hpn, hl, hor⟩ := predExact_loops n _ h0 a b ha hb c hc
+  exact ⟨p, l, hp, hpn, by unfold floydSeal; rw [floydLoops_link]; exact hl, hor⟩
+
+/-- **Floyd: get_local_route returns a route of exactly `cost_table_[src][dst]` links** — the walk of the predecessor
+table terminates (within the model's fuel n + 1: it visits distinct nodes, because the cost from src strictly decreases
+along it), hits neither "No route" nor a null entry, and what it returns is a chain of declared one-hop routes from src
+to dst whose total link count is the entry of the cost table.  Every n, every set of declared routes. -/
+theorem floyd_route_length (n : Nat) (s : FloydSt) (h : WellDecl n s) (src dst c : Nat) (hs : src < n) (hd : dst < n)
+    (hc : (floydSeal n s).cost src dst = some c) :
+    ∃ hops, floydWalk (floydSeal n s) src (n + 1) dst [] = .ok hops ∧
+      HopChain (floydLoopback n s).link src hops dst ∧
+      floydRoute n (floydSeal n s) src dst = .ok (hops.flatMap fun h => h.2.2) ∧
+      (hops.flatMap fun h => h.2.2).length = c := by
+  have h0 := wellDecl_loopback n s h
+  have hlink : (floydSeal n s).link = (floydLoopback n s).link := floydLoops_link n _
+  obtain ⟨hops, hw, hlen⟩ := floydWalk_ok n (floydLoopback n s).link (floydSeal n s) hlink
+    (predExact_loops n _ h0) h0.pos src hs (n + 1) dst [] [] c hd hc List.nodup_nil (by simp) (by simp)
+  simp only [List.append_nil] at hw
+  refine ⟨hops, hw, ?_, by simp [floydRoute, hw], hlen⟩
+  have := floyd_path_valid (floydSeal n s) src dst (n + 1) dst [] hops rfl hw
+  rw [hlink] at this; exact this
+
+/-- **Floyd: the route returned is minimal** — whenever some non-empty chain of declared one-hop routes (incl. the
+loopbacks added by do_seal) leads from src to dst, get_local_route returns a route, that route is itself such a chain,
+and its link count is ≤ the link count of every such chain.  Every n, every set of declared routes. -/
+theorem floyd_route_minimal (n : Nat) (s : FloydSt) (h : WellDecl n s) (src dst : Nat) (hs : src < n) (hd : dst < n)
+    (hops' : List (Nat × Nat × List Lk)) (hne : hops' ≠ []) (hch : HopChain (floydLoopback n s).link src hops' dst) :
+    ∃ hops, HopChain (floydLoopback n s).link src hops dst ∧
+      floydRoute n (floydSeal n s) src dst = .ok (hops.flatMap fun h => h.2.2) ∧
+      (hops.flatMap fun h => h.2.2).length ≤ (hops'.flatMap fun h => h.2.2).length ∧
+      ∀ hops'', hops'' ≠ [] → HopChain (floydLoopback n s).link src hops'' dst →
+        (hops.flatMap fun h => h.2.2).length ≤ (hops''.flatMap fun h => h.2.2).length := by
+  have h0 := wellDecl_loopback n s h
+  have hmin : ∀ hops'', hops'' ≠ [] → HopChain (floydLoopback n s).link src hops'' dst →
+      optLe ((floydSeal n s).cost src dst) (some (hopsLen hops'')) := by
+    intro hops'' hne'' hch''
+    obtain ⟨mid, hm, hwc⟩ := hopChain_walkCost n _ h0 hops'' src dst hne'' hch''
+    have := (floyd_minimal n (floydLoopback n s) h0.insideCost src dst).2 mid hm
+    rw [hwc] at this; exact this
+  cases hc : (floydSeal n s).cost src dst with
+  | none => have := hmin hops' hne hch; rw [hc] at this; simp [optLe] at this
+  | some c =>
+    obtain ⟨hops, _, hchain, hroute, hlen⟩ := floyd_route_length n s h src dst c hs hd hc
+    have hle : ∀ hops'', hops'' ≠ [] → HopChain (floydLoopback n s).link src hops'' dst →
+        (hops.flatMap fun h => h.2.2).length ≤ (hops''.flatMap fun h => h.2.2).length := by
+      intro hops'' hne'' hch''
+      have := hmin hops'' hne'' hch''
+      rw [hc] at this
+      simp only [optLe, hopsLen] at this
+      omega
+    exact ⟨hops, hchain, hroute, hle hops' hne hch, hle⟩
+
+/-- **Floyd: "No route" exactly when there is none** — a pair whose cost stayed ULONG_MAX (equivalently, by
+`floyd_unreachable` / `floyd_minimal`: no chain of declared routes leads from src to dst) gets the "No route" exception
+at the first step of the walk (predecessor -1), never a null dereference or an endless walk. -/
+theorem floyd_no_route (n : Nat) (s : FloydSt) (h : WellDecl n s) (src dst : Nat)
+    (hc : (floydSeal n s).cost src dst = none) : floydRoute n (floydSeal n s) src dst = .error .noRoute := by
+  have hp := (floyd_pred_invariant n s h).2.2 src dst hc
+  simp [floydRoute, floydWalk, hp]
+
+/-- the same from the specification side: no chain of declared routes ⇒ "No route" -/
+theorem floyd_unreachable_no_route (n : Nat) (s : FloydSt) (h : WellDecl n s) (src dst : Nat)
+    (hno : ∀ mid, (∀ m ∈ mid, m < n) → walkCost (floydLoopback n s).cost src mid dst = none) :
+    floydRoute n (floydSeal n s) src dst = .error .noRoute :=
+  floyd_no_route n s h src dst (floyd_unreachable n _ (wellDecl_loopback n s h).insideCost src dst hno)
 
 /- ---------------------------------------------------------------- Full -/
 
@@ -361,6 +438,29 @@ def fEx : FloydSt :=
 example : (floydLoops 3 fEx).cost 0 2 = some 3 ∧ floydRoute 3 (floydLoops 3 fEx) 0 2 = .ok [1, 2, 3] ∧
     floydRoute 3 (floydLoops 3 fEx) 2 0 = .ok [3, 2, 1] ∧ walkCost fEx.cost 0 [1] 2 = some 3 := by
   refine ⟨by decide, by decide, by decide, by decide⟩
+
+/-- non-vacuity of `floyd_pred_invariant`, `floyd_route_length`, `floyd_route_minimal`: the declarations of `fEx`
+replayed as the driver does (`wellDecl_routes`); 0 → 2 has the non-empty chains `[4,5,6,7]` (direct) and `[1,2] [3]`;
+the route returned has the 3 links of the cost table -/
+def fDecl : List (Nat × Nat × Bool × List Lk) := [(0, 1, true, [1, 2]), (1, 2, true, [3]), (0, 2, false, [4, 5, 6, 7])]
+
+def replay (routes : List (Nat × Nat × Bool × List Lk)) : Option FloydSt :=
+  routes.foldl (fun acc r => acc.bind fun st => floydAddRoute st r.1 r.2.1 r.2.2.2 r.2.2.1) (some FloydSt.init)
+
+example : ∃ s, replay fDecl = some s ∧
+    WellDecl 3 s ∧ (floydSeal 3 s).cost 0 2 = some 3 ∧ (floydSeal 3 s).pred 0 2 = some 1 ∧
+    floydRoute 3 (floydSeal 3 s) 0 2 = .ok [1, 2, 3] ∧
+    HopChain (floydLoopback 3 s).link 0 [(0, 2, [4, 5, 6, 7])] 2 ∧
+    HopChain (floydLoopback 3 s).link 0 [(0, 1, [1, 2]), (1, 2, [3])] 2 :=
+  ⟨_, rfl, wellDecl_routes 3 fDecl FloydSt.init _ (wellDecl_init 3) (by decide) rfl, by decide, by decide, by decide,
+   ⟨rfl, by decide, rfl⟩, ⟨rfl, by decide, rfl, by decide, rfl⟩⟩
+
+/-- non-vacuity of `floyd_no_route`: one-way routes 0 → 1 and 2 → 1; nothing leads from 0 to 2 -/
+def fDecl15 : List (Nat × Nat × Bool × List Lk) := [(0, 1, false, [1]), (2, 1, false, [2])]
+
+example : ∃ s, replay fDecl15 = some s ∧
+    WellDecl 3 s ∧ (floydSeal 3 s).cost 0 2 = none ∧ floydRoute 3 (floydSeal 3 s) 0 2 = .error .noRoute :=
+  ⟨_, rfl, wellDecl_routes 3 fDecl15 FloydSt.init _ (wellDecl_init 3) (by decide) rfl, by decide, by decide⟩
 
 example : ∃ t', fullAddRoute false [] 3 4 none none [7, 8] true = some t' ∧ (fullLocal t' 3 4).links = [7, 8] ∧
     (fullLocal t' 4 3).links = [8, 7] := ⟨_, rfl, by decide, by decide⟩
